@@ -33,7 +33,7 @@ def offset_decl(d, off):
     k = d[0]
     if k == 'E': return ('E', n(d[1]), [n(x) for x in d[2]], n(d[3]))
     if k == 'A': return ('A', n(d[1]), n(d[2]))
-    if k == 'S': return ('S', n(d[1]), [(n(e), ty(t)) for e, t in d[2]])
+    if k == 'S': return ('S', n(d[1]), [(n(e[0]), ty(e[1])) + ((n(e[2]),) if len(e) > 2 else ()) for e in d[2]])
     if k == 'R': return ('R', n(d[1]), d[2], d[3])
     if k in 'FUP': return (k, n(d[1]), [v(x) for x in d[2]], [st(s) for s in d[3]])
     return ('C', n(d[1]), [v(x) for x in d[2]], [n(t) for t in d[3]], [(n(i), n(t), n(p)) for i, t, p in d[4]])
